@@ -343,6 +343,10 @@ func (ms *Modules) Process() []error {
 	// made by the same caller.
 	ms.mergedSubmodule = map[string]bool{}
 	ms.ClearEntryCache()
+	// Imports and includes are bound anew: a module loaded since the last
+	// run may be the revision an import names, or a later one than the
+	// revision a date-less import was bound to.
+	ms.includes = map[*Module]bool{}
 
 	errs := ms.process()
 	if len(errs) > 0 {
